@@ -70,7 +70,8 @@ OsPop(os) == IF os.q = <<>> THEN os ELSE [os EXCEPT !.q = Tail(@), !.pno = @ + 1
 
 (* ------------------------------ the reader ------------------------------ *)
 \* _get_next_page(vf, og, -1) from vf.pos: [r, pos]
-NextPage(PG, vf) == LET q == PageAt(PG, vf.pos) IN IF q = 0 THEN [r |-> 0, pos |-> DataEnd(PG)] ELSE [r |-> q, pos |-> PG[q].off + PG[q].len]
+\* (vf.fault: the read callback fails for the time being - no page arrives and nothing moves)
+NextPage(PG, vf) == LET q == IF vf.fault THEN 0 ELSE PageAt(PG, vf.pos) IN IF vf.fault THEN [r |-> 0, pos |-> vf.pos] ELSE IF q = 0 THEN [r |-> 0, pos |-> DataEnd(PG)] ELSE [r |-> q, pos |-> PG[q].off + PG[q].len]
 
 DecodeClear(vf) == [vf EXCEPT !.rs = OPENED]
 MakeReady(BL, vf) == IF vf.rs # STREAMSET THEN vf ELSE [vf EXCEPT !.rs = INITSET, !.d = BK!DecRestart(BL[vf.link], vf.hs), !.solid = FALSE, !.gsh = 0]
@@ -338,9 +339,17 @@ HalfRate(PG, LT, BL, vf, flag, K) ==
   THEN LET s == PcmSeek(PG, LT, BL, [v1 EXCEPT !.off = -1], v1.off, K) IN [ret |-> IF s.ret = -999 THEN -999 ELSE 0, vf |-> s.vf]
   ELSE [ret |-> 0, vf |-> v1]
 
+(* ov_raw_seek when the seek callback fails: the machine is dumped, the position unknown *)
+RawSeekSeekFails(PG, LT, BL, vf, seekpos) ==
+  IF seekpos < 0 \/ seekpos > DataEnd(PG) THEN [ret |-> OV_EINVAL, vf |-> vf]
+  ELSE IF seekpos = vf.pos THEN RawSeek(PG, LT, BL, vf, seekpos)                       \* "only seek if the file position isn't already there": the callback is not asked
+  ELSE LET v1 == IF vf.rs >= STREAMSET /\ (seekpos < LT[vf.link].off \/ seekpos >= LinkEnd(PG, LT, vf.link)) THEN DecodeClear(vf) ELSE vf
+           v2 == Restart(BL, [v1 EXCEPT !.off = -1, !.os = OsReset(v1.ser)])
+       IN [ret |-> OV_EBADLINK, vf |-> DecodeClear(v2)]
+
 (* the handle as _open_seekable2 leaves it: link table built, then ov_raw_seek(dataoffsets[0]) *)
 Opened(PG, LT, BL) ==
-  LET v0 == [rs |-> OPENED, link |-> 1, ser |-> LT[1].ser, off |-> -1, d |-> BK!DecRestart(BL[1], 0), os |-> OsReset(LT[1].ser), pos |-> 0, gk |-> 0, hs |-> 0, sk |-> TRUE, pinser |-> FALSE, pinbos |-> FALSE, bl |-> 1, solid |-> FALSE, gsh |-> 0]
+  LET v0 == [rs |-> OPENED, link |-> 1, ser |-> LT[1].ser, off |-> -1, d |-> BK!DecRestart(BL[1], 0), os |-> OsReset(LT[1].ser), pos |-> 0, gk |-> 0, hs |-> 0, sk |-> TRUE, pinser |-> FALSE, pinbos |-> FALSE, fault |-> FALSE, bl |-> 1, solid |-> FALSE, gsh |-> 0]
   IN RawSeek(PG, LT, BL, v0, LT[1].doff)
 (* a streaming handle after ov_open_callbacks: the headers of the first link read, nothing else *)
 OpenedStreaming(PG, LT, BL) ==
@@ -349,5 +358,5 @@ OpenedStreaming(PG, LT, BL) ==
       h == FetchHeaders(PG, VS, [off |-> 0, base |-> 0, probes |-> <<>>], KS) IN
   IF ~h.ok THEN [ret |-> -132, vf |-> <<>>]
   ELSE [ret |-> 0, vf |-> [rs |-> STREAMSET, link |-> 1, ser |-> h.vser, off |-> 0, d |-> BK!DecRestart(BL[1], 0), os |-> [ser |-> h.vser, q |-> <<>>, pno |-> 3, part |-> FALSE, pn |-> -1],
-                           pos |-> h.rd.off, gk |-> 0, hs |-> 0, sk |-> FALSE, pinser |-> FALSE, pinbos |-> FALSE, bl |-> LinkOfSerial(LT, h.vser), solid |-> FALSE, gsh |-> 0]]
+                           pos |-> h.rd.off, gk |-> 0, hs |-> 0, sk |-> FALSE, pinser |-> FALSE, pinbos |-> FALSE, fault |-> FALSE, bl |-> LinkOfSerial(LT, h.vser), solid |-> FALSE, gsh |-> 0]]
 =============================================================================
